@@ -309,9 +309,16 @@ PROPERTIES = {
                        "and batch-mates cannot influence a prediction through the model; (2) the per-sample characterisations "
                        "C03 / C14 hold for an arbitrary position of the query loop and mention only the model state and that "
                        "sample's node (scratch buffers are re-initialised per query, which is part of the discharged entry "
-                       "obligations); (3) no global state, clock or RNG is read (effects layer). NOT PROVED: that tie-breaking "
-                       "among equally good candidates is position independent (it is determined by the scan order over "
-                       "training samples; a relational lockstep proof is not built). BOUNDED: relational run-time contract - "
+                       "obligations); (3) no global state, clock or RNG is read (effects layer); (4) for the supervised / "
+                       "semi-supervised predict the answer is characterised FUNCTIONALLY - the label of the first minimiser of "
+                       "max(cost, distance) in conquest order (post first_minimiser, ghost winner position, strict updates) - "
+                       "and the relational post position_independent is discharged: two queries of one batch that present the "
+                       "same sample (equal features, or equal dataset index under pre-computed distances) get the same label; "
+                       "with (1) the same function is computed by every later call. NOT PROVED: the same functional "
+                       "characterisation for the KNN-supervised / unsupervised predict (their tie-breaking among equally good "
+                       "neighbours is determined by the stable insertion order of the k-NN buffer; not specified). NOTE: the "
+                       "supervised contract thereby fixes the tie policy (first minimiser); a change to another deterministic "
+                       "policy would be reported although C09 would still hold. BOUNDED: relational run-time contract - "
                        "the same sample alone, at every position of batches with other samples / duplicates, and after earlier "
                        "predict calls, on all four model kinds.",
         "trusted": COMMON_TRUST[:3] + ["see C03, C14, C07"],
